@@ -138,3 +138,96 @@ theorem ite_total (m : Mgr) (hI : Inv m) (hoff : m.lastLen = none) (g u v : Int)
       rw [this]; exact hk
 
 end DD
+
+namespace DD
+
+/-- the documented precondition of the raw `find_or_add`: the level is above both children
+(the code does not check it; every other argument is checked) -/
+def FoaGuard (m : Mgr) (i : Nat) (v w : Int) : Prop :=
+  i < m.nvars → m.tbl.Mem v → m.tbl.Mem w → i < m.tbl.levelOf v ∧ i < m.tbl.levelOf w
+
+/-- `find_or_add` on arbitrary arguments: rejected calls change nothing -/
+theorem findOrAddCore_total (m : Mgr) (hI : Inv m) (i : Nat) (v w : Int) (hg : FoaGuard m i v w) :
+    Kept m (findOrAddCore i v w m).2 := by
+  by_cases h1 : i < m.nvars
+  · by_cases h2 : m.tbl.Mem v
+    · by_cases h3 : m.tbl.Mem w
+      · obtain ⟨hlv, hlw⟩ := hg h1 h2 h3
+        obtain ⟨r, m', he, hp⟩ := findOrAddCore_spec m hI i v w h1 h2 h3 hlv hlw
+        rw [he]; exact ⟨hp.inv, hp.ext, hp.frame⟩
+      · have : m.mem w = false := (Tbl.mem_false_iff _ _).mpr h3
+        have hv : m.mem v = true := (Mgr.mem_iff _ _).mpr h2
+        have : (findOrAddCore i v w m).2 = m := by
+          unfold findOrAddCore; simp [Nat.not_le.mpr h1, hv, this]
+        rw [this]; exact Kept.refl hI
+    · have : m.mem v = false := (Tbl.mem_false_iff _ _).mpr h2
+      have : (findOrAddCore i v w m).2 = m := by
+        unfold findOrAddCore; simp [Nat.not_le.mpr h1, this]
+      rw [this]; exact Kept.refl hI
+  · have : (findOrAddCore i v w m).2 = m := by
+      unfold findOrAddCore; simp [Nat.le_of_not_lt h1]
+    rw [this]; exact Kept.refl hI
+
+/-- `incref` / `decref` never touch the node table (an unknown node is a `KeyError`) -/
+theorem incref_kept (m : Mgr) (hI : Inv m) (u : Int) : Kept m (incref u m).2 := by
+  unfold incref
+  cases h : m.ref[u.natAbs]? with
+  | none => exact Kept.refl hI
+  | some c =>
+    refine ⟨⟨hI.wf, hI.pred, hI.freeGe, hI.free, ?_, ?_, hI.cache⟩, Ext.refl _, ⟨rfl, rfl, rfl, rfl, rfl, rfl⟩⟩
+    · exact contains_insert_mono _ _ _ _ hI.refOne
+    · intro k n hk; exact contains_insert_mono _ _ _ _ (hI.refDom k n hk)
+
+theorem decref_kept (m : Mgr) (hI : Inv m) (u : Int) : Kept m (decref u m).2 := by
+  unfold decref
+  cases h : m.ref[u.natAbs]? with
+  | none => exact Kept.refl hI
+  | some c =>
+    simp only
+    split
+    · exact Kept.refl hI
+    · refine ⟨⟨hI.wf, hI.pred, hI.freeGe, hI.free, ?_, ?_, hI.cache⟩, Ext.refl _, ⟨rfl, rfl, rfl, rfl, rfl, rfl⟩⟩
+      · exact contains_insert_mono _ _ _ _ hI.refOne
+      · intro k n hk; exact contains_insert_mono _ _ _ _ (hI.refDom k n hk)
+
+/-- `apply` with ANY operator string, arity and operands, for the aliases that do not quantify
+(reordering not enabled): the manager is kept whether the call succeeds or is refused -/
+theorem apply_total (m : Mgr) (hI : Inv m) (hoff : m.lastLen = none)
+    (op : String) (u : Int) (v w : Option Int)
+    (hnq : ∀ row, findRow op Gen.applyTable = some row → ∀ fa f b, row.templ ≠ .quant fa f b) :
+    Kept m (apply op u v w m).2 := by
+  unfold apply
+  cases assertOperatorArity op v w with
+  | error e => exact Kept.refl hI
+  | ok _ =>
+    simp only
+    split
+    · exact Kept.refl hI
+    · split
+      · exact Kept.refl hI
+      · split
+        · exact Kept.refl hI
+        · cases hr : findRow op Gen.applyTable with
+          | none => exact Kept.refl hI
+          | some row =>
+            simp only
+            cases ht : row.templ with
+            | neg => exact Kept.refl hI
+            | notImpl => exact Kept.refl hI
+            | bad => exact Kept.refl hI
+            | quant fa f b => exact absurd ht (hnq row hr fa f b)
+            | ite a b c =>
+              simp only
+              cases v with
+              | none => exact Kept.refl hI
+              | some vv =>
+                simp only
+                split
+                · exact Kept.refl hI
+                · split
+                  · exact ite_total m hI hoff _ _ _
+                  · exact Kept.refl hI
+                  · exact Kept.refl hI
+                  · exact Kept.refl hI
+
+end DD
